@@ -144,6 +144,18 @@ def real(case):
             if df2 is not None:
                 out["diff"]["cif-cif"] = g4.compare_rows(rows, g4.rows_of(df2))
                 out["cif_identical"] = g4.frames_agree(df, df2)
+        if case.get("to_file"):
+            # the writers given a path (as the tools do) whose file name has a blank and a second dot in it
+            with tempfile.TemporaryDirectory(prefix="c09-") as d:
+                p = os.path.join(d, "two words.v2.cif")
+                step(out, "cif-cif(file)", "write_cif", write_cif, df, p)
+                if os.path.exists(p):
+                    with open(p) as f:
+                        dff = step(out, "cif-cif(file)", "parse_cif_atoms", parse_cif_atoms, f.read())
+                    if dff is not None:
+                        out["diff"]["cif-cif(file)"] = g4.compare_rows(rows, g4.rows_of(dff))
+                elif not any(r[0] == "cif-cif(file)" for r in out["raises"]):
+                    out["raises"].append(("cif-cif(file)", "write_cif", "NoFile", "no file written"))
         if out["fits"]:
             text = step(out, "cif-pdb-cif", "write_pdb", write_pdb, df)
             if text is not None:
@@ -224,7 +236,7 @@ def build_cases(ctx, res):
             continue
         fam = "gen:%dm:%dc" % (len({r["model"] for r in rows}), min(9, len({r["chain"] for r in rows})))
         cases.append({"source": "gen", "format": "PDB", "rows": rows, "family": fam})
-        cases.append({"source": "gen", "format": "mmCIF", "rows": rows, "emit_seed": rng.randrange(1 << 30), "family": fam})
+        cases.append({"source": "gen", "format": "mmCIF", "rows": rows, "emit_seed": rng.randrange(1 << 30), "family": fam, "to_file": i % 4 == 0})
     # large tables whose models are listed in descending / shuffled order (several hundred rows per model)
     for i in range(ctx.pick(2, 12)):
         one = [r for r in g4.random_table(rng, nmodels=1, nchains=rng.choice([2, 3, 4]), max_res=rng.choice([12, 20])) if g4.within_limits(r)]
@@ -378,7 +390,7 @@ def judge(ctx, res, cases, outs):
         models = len({r["model"] for r in o["rows"]})
         res.count("models:%d" % min(models, 4))
         for path, name, exc, msg in o["raises"]:
-            if path == "cif-cif" or o["fits"]:
+            if path.startswith("cif-cif") or o["fits"]:
                 res.fail("spec", "C09:roundtrip:%s:%s:raises:%s" % (path, name, exc), inp, "%s raised %s: %s" % (name, exc, msg))
             else:
                 res.count("raises-outside-limits:%s:%s" % (name, exc))
@@ -386,7 +398,7 @@ def judge(ctx, res, cases, outs):
             if d is None:
                 res.count("roundtrip-ok:" + path)
                 continue
-            if path != "cif-cif" and not o["fits"]:
+            if not path.startswith("cif-cif") and not o["fits"]:
                 continue
             i, fld, a, b = d
             res.fail("spec", "C09:roundtrip:%s:%s" % (path, fld), inp,
